@@ -130,7 +130,10 @@ def describe(v):
         return {"t": "dict", "v": [[k, describe(x)] for k, x in v.items()]}
     cls = type(v)
     if hasattr(v, "to_save_dict"):
-        attrs = v.to_save_dict()
+        try:
+            attrs = v.to_save_dict()
+        except Exception as e:  # noqa  (a rebuilt object that lost its attributes cannot even describe itself)
+            return {"t": "obj", "cls": cls.__name__, "mod": cls.__module__, "kind": "custom", "attrs": [["<to_save_dict raises>", {"t": "str", "v": type(e).__name__}]]}
         return {"t": "obj", "cls": cls.__name__, "mod": cls.__module__, "kind": "custom",
                 "attrs": [[k, describe(x)] for k, x in attrs.items()]}
     return {"t": "obj", "cls": cls.__name__, "mod": cls.__module__, "kind": "auto",
